@@ -439,6 +439,9 @@ func (s *c03Stores) reads(tx *bbolt.Tx, vals []string) string {
 
 func c03Exec(line string) string {
 	f := fields(line)
+	if len(f) > 0 && f[0] == "k" {
+		return c03ExecChain(f) // three-level store chain (c03_chain.go)
+	}
 	if (len(f) != 3 && len(f) != 4) || f[0] != "h" {
 		return "bad-case"
 	}
@@ -1046,6 +1049,7 @@ func c03Gen(tier string, seed uint64, out *bufio.Writer) {
 		}
 	}
 	c03GenKeySize(out)
+	c03GenChains(tier, newRng(seed^0x5c03c4a1), out)
 	if tier != "thorough" {
 		c03GenPairs(out, 3)
 	} else {
